@@ -25,9 +25,58 @@ def neutral_options():
     return json.load(open(os.path.join(C.CORPUS, PID, "_neutral_options.json")))
 
 
+def plan_units_stage(chk, tier, seed):
+    """how the factory groups precedence relations into plan units (factory/plan_units.go allSequences / mergeUnits) vs
+    Model/PlanUnitsBuild.v all_sequences: the multi-stop plan units of the built model, in model order"""
+    import common
+    rng = random.Random(seed * 1009 + 1616)
+    n = 600 if tier == "quick" else 20000
+    blocks = []
+    off = {k: False for k in ("capacity", "windows", "groups", "alternates", "mixing", "initial", "dur_groups", "multipliers",
+                              "targets", "minstops", "limits", "attrs", "defaults")}
+    for i in range(n):
+        inp, opts, feats = GF.gen_full(rng, "small", force=dict(off, precedence=True, dag=True))
+        opts["constraints"]["disable"]["precedence"] = False
+        idx = {s["id"]: k for k, s in enumerate(inp["stops"])}
+        seqs = []
+        for s in inp["stops"]:
+            for t in GF.as_list(s.get("precedes")):
+                tid, d = (t["id"], bool(t.get("direct"))) if isinstance(t, dict) else (t, False)
+                seqs.append((idx[s["id"]], idx.get(tid, -1), d))
+            for t in GF.as_list(s.get("succeeds")):
+                tid, d = (t["id"], bool(t.get("direct"))) if isinstance(t, dict) else (t, False)
+                seqs.append((idx.get(tid, -1), idx[s["id"]], d))
+        if any(a < 0 or b < 0 for a, b, _ in seqs):
+            continue
+        blocks.append((str(i), GF.case_lines(inp, opts, {"iterations": 1})[:2] + ["seq %d %d %d" % (a, b, 1 if d else 0) for a, b, d in seqs]))
+    cf = os.path.join(common.BUILD, "c16_punits_%s.case" % tier)
+    common.write_cases(cf, blocks)
+    (rc1, go_out, go_err), (rc2, ml_out, ml_err) = common.run_both("punits", cf, timeout=3000)
+    chk.ob("plan units: harness and model runner exit normally", rc1 == 0 and rc2 == 0, (go_err + ml_err)[-300:])
+    g, m = common.group_lines(go_out), common.group_lines(ml_out)
+    bad, compared, rejected = [], 0, 0
+    for cid, lines in blocks:
+        gl, ml = g.get(cid, []), m.get(cid, [])
+        if gl and gl[0] in ("build-error", "decode-error"):
+            rejected += 1        # cycles, two direct successors ...: rejected with an error, nothing to compare
+            if ml and ml[0] == "panic":
+                bad.append({"case": lines[2:], "impl": gl, "model": ml})
+            continue
+        compared += 1
+        if gl and gl[0].startswith("panic"):
+            chk.violation({"kind": "input", "what": "factory panicked while grouping precedence relations: " + gl[0][:200], "case": lines})
+        if gl != ml and len(bad) < 5:
+            bad.append({"case": lines[2:], "impl": gl, "model": ml})
+    chk.ob("plan units of the built model = PlanUnitsBuild.all_sequences on %d precedence DAG inputs (%d more rejected by the factory)"
+           % (compared, rejected), not bad, str(bad[0])[:700] if bad else "")
+    if bad and chk.mismatch is None:
+        chk.mismatch = bad[0]
+    chk.ev.cov["plan_unit_inputs_compared"] = compared
+
+
 def run(tier, seed, replay=None):
     chk = FW.Check(PID, tier, seed)
-    if not chk.builds(model=False, harness=True):
+    if not chk.builds(model=True, harness=True):
         return chk.finish()
     chk.proofs()
     rng = random.Random(seed * 1009 + 16)
@@ -100,6 +149,7 @@ def run(tier, seed, replay=None):
             if "no-mix" in o or "no_mix" in o or "noMix" in r.get("stderr", ""):
                 obj["finding_shape"] = {"kind": "no_mix_engine_error"}
             chk.violation(obj)
+    plan_units_stage(chk, tier, seed)
     missing = [cid for cid, _ in blocks if cid not in res]
     chk.ob("every case reached an outcome (%d corpus + %d generated)" % (ncorp, n), not missing, "no outcome for %s" % missing[:5])
     chk.ob("no panic / process crash / hang / engine error (outcome classes: %s)" % classes, not chk.violations)
